@@ -107,6 +107,7 @@ type interpreter struct {
 	nowTick  int64
 	bypass   *ssa.Function // call the real body of this function once, not its intrinsic
 	tolerantInit *ssa.Function
+	onSortSlice  value
 	twinLabel string
 	baseMapOrder int
 	atomicAdversary func(p *value)
